@@ -299,6 +299,319 @@ theorem applyDxdt_ok (dt : Rat) (x dxdt : Vec Rat) (hx : x.size = T.n * T.ns) (h
   refine Ok.bind (Vec.rd_Ok _ _ (site_d dxdt hd hi hj)) (fun d _ => ?_)
   exact Ok.mono (Vec.wr_Ok _ _ _ (site_x x hx hi hj)) (fun x' h => h.1.trans hx)
 
+/-! ### tau-leap -/
+
+theorem poissonChecked_ok (o : Oracles) (cnt : Nat) (lam : Rat) : Ok (poissonChecked o cnt lam) (fun _ => True) := by
+  unfold poissonChecked
+  by_cases h : lam ≤ 0
+  · rw [if_pos h]; exact Ok.pure trivial
+  · rw [if_neg h, if_pos (not_le.mp h)]; exact Ok.pure trivial
+
+/-- slots without a neighbour hold 0 (`mesh_nd`, `mesh_ad`) -/
+def WallZero {α : Type} [Zero α] (T : Tabs) (L : Layout) (slots : Nat → Nat) (nb : Nat → Nat → Option Nat) (sv : SlotVec α)
+    (upto : Nat → Nat → Nat → Prop) : Prop :=
+  ∀ i s k, i < T.n → s < T.ns → k < slots i → upto i s k → nb i k = none → ∀ a, L.slot i s k = .ok a → sv.rd a = .ok 0
+
+/-- lexicographic "already processed" for the loops cell / species / slot -/
+def Before (i s k i' s' k' : Nat) : Prop := i' < i ∨ (i' = i ∧ (s' < s ∨ (s' = s ∧ k' < k)))
+
+theorem before_slot_succ {i s k i' s' k' : Nat} (h : Before i s (k + 1) i' s' k') : Before i s k i' s' k' ∨ (i' = i ∧ s' = s ∧ k' = k) := by
+  unfold Before at *
+  rcases h with h | ⟨h1, h | ⟨h2, h3⟩⟩
+  · exact Or.inl (Or.inl h)
+  · exact Or.inl (Or.inr ⟨h1, Or.inl h⟩)
+  · by_cases hk : k' = k
+    · exact Or.inr ⟨h1, h2, hk⟩
+    · exact Or.inl (Or.inr ⟨h1, Or.inr ⟨h2, by omega⟩⟩)
+
+/-- writing slot (i, s, k) keeps readability of every slot and the zeros of the other wall slots -/
+theorem slot_write {α : Type} [Zero α] (hL : LayoutOK T L slots nb) (sv : SlotVec α) (hsv : SlotOK T L slots sv)
+    {i s k : Nat} (hi : i < T.n) (hs : s < T.ns) (hk : k < slots i) (a : SlotAddr) (ha : L.slot i s k = .ok a) (v : α)
+    (upto : Nat → Nat → Nat → Prop) (hz : WallZero T L slots nb sv upto) (hv : nb i k = none → v = 0) :
+    Ok (sv.wr a v) (fun sv' => SlotOK T L slots sv' ∧
+      WallZero T L slots nb sv' (fun i' s' k' => upto i' s' k' ∨ (i' = i ∧ s' = s ∧ k' = k))) := by
+  refine Ok.mono (SlotVec.wr_Ok v (hsv i s k hi hs hk a ha)) (fun sv' hrw => ⟨?_, ?_⟩)
+  · intro i' s' k' hi' hs' hk' b hb
+    rw [hrw b]
+    by_cases hba : b = a
+    · rw [if_pos hba]; exact Ok.pure trivial
+    · rw [if_neg hba]; exact hsv i' s' k' hi' hs' hk' b hb
+  · intro i' s' k' hi' hs' hk' hup hwall b hb
+    rw [hrw b]
+    by_cases hba : b = a
+    · rw [if_pos hba]
+      subst hba
+      obtain ⟨e1, e2, e3⟩ := hL.slot_inj i' s' k' i s k b hi' hs' hk' hi hs hk hb ha
+      subst e1 e2 e3
+      rw [hv hwall]
+    · rw [if_neg hba]
+      rcases hup with hup | ⟨e1, e2, e3⟩
+      · exact hz i' s' k' hi' hs' hk' hup hwall b hb
+      · subst e1 e2 e3
+        exact absurd (hb.symm.trans ha |> Except.ok.inj) hba
+
+/-- `Compute_nevt`: no access fails, no Poisson precondition is violated; afterwards `mesh_nr` has its size, every
+slot of `mesh_nd` is readable and the slots without a neighbour hold 0 -/
+theorem computeNevt_ok (hT : TabsOK T) (hL : LayoutOK T L slots nb) (o : Oracles) (dt : Rat) (x : Vec Rat)
+    (hx : x.size = T.n * T.ns) (st : TauSt) (hnr : st.mnr.size = T.n * T.nr) (hnd : SlotOK T L slots st.mnd) :
+    Ok (computeNevt T L o dt x st) (fun st' => st'.mnr.size = T.n * T.nr ∧ SlotOK T L slots st'.mnd ∧
+      WallZero T L slots nb st'.mnd (fun _ _ _ => True)) := by
+  unfold computeNevt
+  let Inv := fun (i s k : Nat) (st : TauSt) => st.mnr.size = T.n * T.nr ∧ SlotOK T L slots st.mnd ∧
+    WallZero T L slots nb st.mnd (fun i' s' k' => Before i s k i' s' k')
+  have hstart : Inv 0 0 0 st := ⟨hnr, hnd, fun i' s' k' _ _ _ hb => by
+    unfold Before at hb; omega⟩
+  refine Ok.mono (Ok.forUpTo (fun i st => Inv i 0 0 st) hstart (fun i hi st hinv => ?_)) (fun st' h => ⟨h.1, h.2.1, ?_⟩)
+  swap
+  · intro i' s' k' hi' hs' hk' _ hw a ha
+    exact h.2.2 i' s' k' hi' hs' hk' (Or.inl hi') hw a ha
+  -- reactions of cell i
+  refine Ok.bind (Ok.forUpTo (fun _ st => Inv i 0 0 st) hinv (fun r hr st hinv => ?_)) (fun st hinv => ?_)
+  · refine Ok.bind (reactionProp_ok hT x hx hi hr) (fun a _ => ?_)
+    refine Ok.bind (poissonChecked_ok o st.cnt (a * dt)) (fun p _ => ?_)
+    refine Ok.bind (Vec.wr_Ok _ _ _ (site_nr st.mnr hinv.1 hi hr)) (fun v hv => ?_)
+    exact Ok.pure ⟨hv.1.trans hinv.1, hinv.2.1, hinv.2.2⟩
+  rw [hL.nSlots i hi, ok_bind]
+  -- species loop
+  refine Ok.mono (Ok.forUpTo (fun s st => Inv i s 0 st) hinv (fun s hs st hinv => ?_)) (fun st' h => ⟨h.1, h.2.1, ?_⟩)
+  swap
+  · intro i' s' k' hi' hs' hk' hb hw a ha
+    refine h.2.2 i' s' k' hi' hs' hk' ?_ hw a ha
+    unfold Before at hb ⊢
+    rcases hb with hb | ⟨hb, hb2 | ⟨_, hb3⟩⟩
+    · omega
+    · omega
+    · omega
+  -- slot loop
+  refine Ok.mono (Ok.forUpTo (fun k st => Inv i s k st) hinv (fun k hk st hinv => ?_)) (fun st' h => ⟨h.1, h.2.1, ?_⟩)
+  swap
+  · intro i' s' k' hi' hs' hk' hb hw a ha
+    refine h.2.2 i' s' k' hi' hs' hk' ?_ hw a ha
+    unfold Before at hb ⊢
+    rcases hb with hb | ⟨hb, hb2 | ⟨hb2, hb3⟩⟩
+    · exact Or.inl hb
+    · subst hb; exact Or.inr ⟨rfl, by omega⟩
+    · omega
+  rw [hL.nbr i k hi hk, ok_bind]
+  obtain ⟨a, ha, _⟩ := hL.slot i s k hi hs hk
+  rw [ha, ok_bind]
+  have hfin : ∀ v : Int, (nb i k = none → v = 0) → ∀ cnt : Nat,
+      Ok (st.mnd.wr a v >>= fun w => (.ok { st with mnd := w, cnt := cnt } : CRes TauSt)) (fun st' => Inv i s (k + 1) st') := by
+    intro v hv cnt
+    refine Ok.bind (slot_write hL st.mnd hinv.2.1 hi hs hk a ha v _ hinv.2.2 hv) (fun w hw => ?_)
+    refine Ok.pure ⟨hinv.1, hw.1, ?_⟩
+    intro i' s' k' hi' hs' hk' hb hwall b hb'
+    exact hw.2 i' s' k' hi' hs' hk' (before_slot_succ hb) hwall b hb'
+  cases hnb : nb i k with
+  | none =>
+    simp only [Option.isSome_none, Bool.false_eq_true, if_false]
+    have := hfin 0 (fun _ => rfl) st.cnt
+    simpa using this
+  | some j =>
+    simp only [Option.isSome_some, if_true]
+    refine Ok.bind (diffusionPropC_ok hL x hx hi hs hk) (fun pr _ => ?_)
+    refine Ok.bind (poissonChecked_ok o st.cnt (pr * dt)) (fun p _ => ?_)
+    exact hfin p.1 (fun h => by rw [hnb] at h; cases h) p.2
+
+/-- `Apply_nevt`: with the scratch vectors as `Compute_nevt` leaves them no access fails (a non-zero count belongs to a slot
+with a neighbour, so `mesh_chstt[j*n_species+s]` / `mesh_x[j*n_species+s]` are never indexed with j = −1) -/
+theorem applyNevt_ok (hT : TabsOK T) (hL : LayoutOK T L slots nb) (st : TauSt) (hnr : st.mnr.size = T.n * T.nr)
+    (hnd : SlotOK T L slots st.mnd) (hz : WallZero T L slots nb st.mnd (fun _ _ _ => True))
+    (x : Vec Rat) (hx : x.size = T.n * T.ns) :
+    Ok (applyNevt T L st x) (fun x' => x'.size = T.n * T.ns) := by
+  unfold applyNevt
+  refine Ok.forUpTo (fun _ (x : Vec Rat) => x.size = T.n * T.ns) hx (fun i hi x hx => ?_)
+  refine Ok.bind (Ok.forUpTo (fun _ (x : Vec Rat) => x.size = T.n * T.ns) hx (fun r hr x hx => ?_)) (fun x hx => ?_)
+  · refine Ok.forUpTo (fun _ (x : Vec Rat) => x.size = T.n * T.ns) hx (fun j hj x hx => ?_)
+    refine Ok.bind (Vec.rd_Ok _ _ (site_chstt hT hi hj)) (fun c _ => ?_)
+    refine Ok.ite (fun _ => Ok.pure hx) (fun _ => ?_)
+    refine Ok.bind (Vec.rd_Ok _ _ (site_x x hx hi hj)) (fun xv _ => ?_)
+    refine Ok.bind (Vec.rd_Ok _ _ (site_sto hT hj hr)) (fun sv _ => ?_)
+    refine Ok.bind (Vec.rd_Ok _ _ (site_nr st.mnr hnr hi hr)) (fun nv _ => ?_)
+    exact Ok.mono (Vec.wr_Ok _ _ _ (site_x x hx hi hj)) (fun x' h => h.1.trans hx)
+  rw [hL.nSlots i hi, ok_bind]
+  refine Ok.forUpTo (fun _ (x : Vec Rat) => x.size = T.n * T.ns) hx (fun s hs x hx => ?_)
+  refine Ok.forUpTo (fun _ (x : Vec Rat) => x.size = T.n * T.ns) hx (fun k hk x hx => ?_)
+  obtain ⟨a, ha, _⟩ := hL.slot i s k hi hs hk
+  rw [ha, ok_bind]
+  obtain ⟨nd, hndv, _⟩ := hnd i s k hi hs hk a ha
+  rw [hndv, ok_bind]
+  refine Ok.ite (fun _ => Ok.pure hx) (fun hne => ?_)
+  refine Ok.bind (Vec.rd_Ok _ _ (site_chstt hT hi hs)) (fun c _ => ?_)
+  have hx1 : Ok (if c ≠ 0 then (.ok x : CRes (Vec Rat)) else x.rd (T.xIdx i s) >>= fun xv => x.wr (T.xIdx i s) (xv - (nd : Rat)))
+      (fun x1 => x1.size = T.n * T.ns) := by
+    refine Ok.ite (fun _ => Ok.pure hx) (fun _ => ?_)
+    refine Ok.bind (Vec.rd_Ok _ _ (site_x x hx hi hs)) (fun xv _ => ?_)
+    exact Ok.mono (Vec.wr_Ok _ _ _ (site_x x hx hi hs)) (fun x' h => h.1.trans hx)
+  refine Ok.bind hx1 (fun x1 hx1 => ?_)
+  rw [hL.nbr i k hi hk, ok_bind]
+  cases hnb : nb i k with
+  | none =>
+    have := hz i s k hi hs hk trivial hnb a ha
+    rw [hndv] at this
+    exact absurd (Except.ok.inj this) hne
+  | some j =>
+    dsimp only
+    have hj := hL.nbr_lt i k j hi hk hnb
+    refine Ok.bind (Vec.rd_Ok _ _ (site_chstt_nbr hT hj hs)) (fun cj _ => ?_)
+    refine Ok.ite (fun _ => Ok.pure hx1) (fun _ => ?_)
+    refine Ok.bind (Vec.rd_Ok _ _ (site_x_nbr x1 hx1 hj hs)) (fun xj _ => ?_)
+    exact Ok.mono (Vec.wr_Ok _ _ _ (site_x_nbr x1 hx1 hj hs)) (fun x' h => h.1.trans hx1)
+
+/-! ### Gillespie -/
+
+/-- sizes of the Gillespie scratch vectors -/
+structure GilOK (T : Tabs) (L : Layout) (slots : Nat → Nat) (g : GilSt) : Prop where
+  ar : g.ar.size = T.n * T.nr
+  a0r : g.a0r.size = T.n
+  a0d : g.a0d.size = T.n
+  ad : SlotOK T L slots g.ad
+
+/-- `ComputePropensities`: afterwards the slots of `mesh_ad` without a neighbour hold 0 -/
+theorem computePropensities_ok (hT : TabsOK T) (hL : LayoutOK T L slots nb) (x : Vec Rat) (hx : x.size = T.n * T.ns)
+    (g : GilSt) (hg : GilOK T L slots g) :
+    Ok (computePropensities T L x g) (fun g' => GilOK T L slots g' ∧ WallZero T L slots nb g'.ad (fun _ _ _ => True)) := by
+  unfold computePropensities
+  let Inv := fun (i s k : Nat) (g : GilSt) => GilOK T L slots g ∧ WallZero T L slots nb g.ad (fun i' s' k' => Before i s k i' s' k')
+  have hstart : Inv 0 0 0 { g with a0 := 0 } := ⟨⟨hg.ar, hg.a0r, hg.a0d, hg.ad⟩, fun i' s' k' _ _ _ hb => by
+    unfold Before at hb; omega⟩
+  refine Ok.mono (Ok.forUpTo (fun i g => Inv i 0 0 g) hstart (fun i hi g hinv => ?_)) (fun g' h => ⟨h.1, ?_⟩)
+  swap
+  · intro i' s' k' hi' hs' hk' _ hw a ha
+    exact h.2 i' s' k' hi' hs' hk' (Or.inl hi') hw a ha
+  refine Ok.bind (Vec.wr_Ok _ _ _ (site_cell g.a0d hinv.1.a0d hi)) (fun v1 hv1 => ?_)
+  refine Ok.bind (Vec.wr_Ok _ _ _ (site_cell g.a0r hinv.1.a0r hi)) (fun v2 hv2 => ?_)
+  have hinv1 : Inv i 0 0 { g with a0d := v1, a0r := v2 } :=
+    ⟨⟨hinv.1.ar, hv2.1.trans hinv.1.a0r, hv1.1.trans hinv.1.a0d, hinv.1.ad⟩, hinv.2⟩
+  refine Ok.bind (Ok.forUpTo (fun _ g => Inv i 0 0 g) hinv1 (fun r hr g hinv => ?_)) (fun g hinv => ?_)
+  · refine Ok.bind (reactionProp_ok hT x hx hi hr) (fun a _ => ?_)
+    refine Ok.bind (Vec.wr_Ok _ _ _ (site_ar g.ar hinv.1.ar hi hr)) (fun ar har => ?_)
+    have hars : ar.size = T.n * T.nr := har.1.trans hinv.1.ar
+    refine Ok.bind (Vec.rd_Ok _ _ (site_ar ar hars hi hr)) (fun a' _ => ?_)
+    refine Ok.bind (Vec.rd_Ok _ _ (site_cell g.a0r hinv.1.a0r hi)) (fun c _ => ?_)
+    refine Ok.bind (Vec.wr_Ok _ _ _ (site_cell g.a0r hinv.1.a0r hi)) (fun a0r ha0r => ?_)
+    exact Ok.pure ⟨⟨hars, ha0r.1.trans hinv.1.a0r, hinv.1.a0d, hinv.1.ad⟩, hinv.2⟩
+  rw [hL.nSlots i hi, ok_bind]
+  refine Ok.mono (Ok.forUpTo (fun s g => Inv i s 0 g) hinv (fun s hs g hinv => ?_)) (fun g' h => ⟨h.1, ?_⟩)
+  swap
+  · intro i' s' k' hi' hs' hk' hb hw a ha
+    refine h.2 i' s' k' hi' hs' hk' ?_ hw a ha
+    unfold Before at hb ⊢
+    rcases hb with hb | ⟨hb, hb2 | ⟨_, hb3⟩⟩
+    · omega
+    · omega
+    · omega
+  refine Ok.mono (Ok.forUpTo (fun k g => Inv i s k g) hinv (fun k hk g hinv => ?_)) (fun g' h => ⟨h.1, ?_⟩)
+  swap
+  · intro i' s' k' hi' hs' hk' hb hw a ha
+    refine h.2 i' s' k' hi' hs' hk' ?_ hw a ha
+    unfold Before at hb ⊢
+    rcases hb with hb | ⟨hb, hb2 | ⟨hb2, hb3⟩⟩
+    · exact Or.inl hb
+    · subst hb; exact Or.inr ⟨rfl, by omega⟩
+    · omega
+  rw [hL.nbr i k hi hk, ok_bind]
+  obtain ⟨a, ha, _⟩ := hL.slot i s k hi hs hk
+  rw [ha, ok_bind]
+  have hpr : Ok (if (nb i k).isSome then diffusionPropC T L x i s k else (.ok 0 : CRes Rat)) (fun pr => nb i k = none → pr = 0) := by
+    cases hnb : nb i k with
+    | none => simp only [Option.isSome_none, Bool.false_eq_true, if_false]; exact Ok.pure (fun _ => rfl)
+    | some j =>
+      simp only [Option.isSome_some, if_true]
+      exact Ok.mono (diffusionPropC_ok hL x hx hi hs hk) (fun _ _ h => by cases h)
+  refine Ok.bind hpr (fun pr hprz => ?_)
+  refine Ok.bind (slot_write hL g.ad hinv.1.ad hi hs hk a ha pr _ hinv.2 hprz) (fun ad had => ?_)
+  obtain ⟨pr', hpr', _⟩ := had.1 i s k hi hs hk a ha
+  rw [hpr', ok_bind]
+  refine Ok.bind (Vec.rd_Ok _ _ (site_cell g.a0d hinv.1.a0d hi)) (fun c _ => ?_)
+  refine Ok.bind (Vec.wr_Ok _ _ _ (site_cell g.a0d hinv.1.a0d hi)) (fun a0d ha0d => ?_)
+  refine Ok.pure ⟨⟨hinv.1.ar, hinv.1.a0r, ha0d.1.trans hinv.1.a0d, had.1⟩, ?_⟩
+  intro i' s' k' hi' hs' hk' hb hwall b hb'
+  exact had.2 i' s' k' hi' hs' hk' (before_slot_succ hb) hwall b hb'
+
+/-- `ApplyReaction` -/
+theorem applyReactionC_ok (hT : TabsOK T) (x : Vec Rat) (hx : x.size = T.n * T.ns) {i r : Nat} (hi : i < T.n) (hr : r < T.nr) :
+    Ok (applyReactionC T x i r) (fun x' => x'.size = T.n * T.ns) := by
+  unfold applyReactionC
+  refine Ok.forUpTo (fun _ (x : Vec Rat) => x.size = T.n * T.ns) hx (fun s hs x hx => ?_)
+  refine Ok.bind (Vec.rd_Ok _ _ (site_chstt hT hi hs)) (fun c _ => ?_)
+  refine Ok.ite (fun _ => Ok.pure hx) (fun _ => ?_)
+  refine Ok.bind (Vec.rd_Ok _ _ (site_x x hx hi hs)) (fun xv _ => ?_)
+  refine Ok.bind (Vec.rd_Ok _ _ (site_sto hT hs hr)) (fun sv _ => ?_)
+  exact Ok.mono (Vec.wr_Ok _ _ _ (site_x x hx hi hs)) (fun x' h => h.1.trans hx)
+
+/-- `ApplyDiffusion` through a slot that has a neighbour -/
+theorem applyDiffusionC_ok (hT : TabsOK T) (hL : LayoutOK T L slots nb) (x : Vec Rat) (hx : x.size = T.n * T.ns)
+    {i s k j : Nat} (hi : i < T.n) (hs : s < T.ns) (hk : k < slots i) (hnb : nb i k = some j) :
+    Ok (applyDiffusionC T L x i s k) (fun x' => x'.size = T.n * T.ns) := by
+  unfold applyDiffusionC
+  rw [hL.nbr i k hi hk, ok_bind, hnb]
+  dsimp only
+  have hj := hL.nbr_lt i k j hi hk hnb
+  refine Ok.bind (Vec.rd_Ok _ _ (site_chstt hT hi hs)) (fun c _ => ?_)
+  have hx1 : Ok (if c ≠ 0 then (.ok x : CRes (Vec Rat)) else x.rd (T.xIdx i s) >>= fun xv => x.wr (T.xIdx i s) (xv - 1))
+      (fun x1 => x1.size = T.n * T.ns) := by
+    refine Ok.ite (fun _ => Ok.pure hx) (fun _ => ?_)
+    refine Ok.bind (Vec.rd_Ok _ _ (site_x x hx hi hs)) (fun xv _ => ?_)
+    exact Ok.mono (Vec.wr_Ok _ _ _ (site_x x hx hi hs)) (fun x' h => h.1.trans hx)
+  refine Ok.bind hx1 (fun x1 hx1 => ?_)
+  refine Ok.bind (Vec.rd_Ok _ _ (site_chstt_nbr hT hj hs)) (fun cj _ => ?_)
+  refine Ok.ite (fun _ => Ok.pure hx1) (fun _ => ?_)
+  refine Ok.bind (Vec.rd_Ok _ _ (site_x_nbr x1 hx1 hj hs)) (fun xj _ => ?_)
+  exact Ok.mono (Vec.wr_Ok _ _ _ (site_x_nbr x1 hx1 hj hs)) (fun x' h => h.1.trans hx1)
+
+/-- `DrawAndApplyEvent`: the reaction scan and the diffusion scan stay inside `mesh_a0r`, `mesh_ar`, `mesh_a0d`, `mesh_ad`;
+a diffusion event is only applied through a slot whose propensity is positive, hence (zeros on the walls) one that has a
+neighbour -/
+theorem drawAndApplyEvent_ok (hT : TabsOK T) (hL : LayoutOK T L slots nb) (g : GilSt) (hg : GilOK T L slots g)
+    (hz : WallZero T L slots nb g.ad (fun _ _ _ => True)) (r : Rat) (x : Vec Rat) (hx : x.size = T.n * T.ns) :
+    Ok (drawAndApplyEvent T L g r x) (fun x' => x'.size = T.n * T.ns) := by
+  unfold drawAndApplyEvent
+  refine Ok.bind (Ok.forUpTo (fun _ (st : ScanSt) => st.x.size = T.n * T.ns) hx (fun i hi st hst => ?_)) (fun st hst => Ok.pure hst)
+  refine Ok.ite (fun _ => Ok.pure hst) (fun _ => ?_)
+  refine Ok.bind (Vec.rd_Ok _ _ (site_cell g.a0r hg.a0r hi)) (fun ar0 _ => ?_)
+  refine Ok.ite (fun _ => ?_) (fun hnr => ?_)
+  · -- reaction scan
+    refine Ok.bind (Ok.forUpTo (fun _ (s2 : ScanSt) => s2.x.size = T.n * T.ns) hst (fun j hj s2 hs2 => ?_)) (fun s2 hs2 => Ok.pure hs2)
+    refine Ok.ite (fun _ => Ok.pure hs2) (fun _ => ?_)
+    refine Ok.bind (Vec.rd_Ok _ _ (site_ar g.ar hg.ar hi hj)) (fun a _ => ?_)
+    refine Ok.ite (fun _ => ?_) (fun _ => Ok.pure hs2)
+    exact Ok.bind (applyReactionC_ok hT s2.x hs2 hi hj) (fun x' hx' => Ok.pure hx')
+  refine Ok.bind (Vec.rd_Ok _ _ (site_cell g.a0d hg.a0d hi)) (fun ad0 _ => ?_)
+  refine Ok.ite (fun _ => ?_) (fun _ => Ok.pure hst)
+  rw [hL.nSlots i hi, ok_bind]
+  -- diffusion scan: while nothing is selected the cumulative sum has not passed the target
+  let Inv := fun (s2 : ScanSt) => s2.x.size = T.n * T.ns ∧ (s2.done = false → s2.cum ≤ r - (st.cum + ar0))
+  have hstart : Inv { cum := 0, done := false, x := st.x } := ⟨hst, fun _ => by
+    have := not_lt.mp hnr
+    show (0 : Rat) ≤ r - (st.cum + ar0)
+    linarith⟩
+  refine Ok.bind (Ok.forUpTo (fun _ s2 => Inv s2) hstart (fun s hs s2 hs2 => ?_)) (fun s2 hs2 => Ok.pure hs2.1)
+  refine Ok.forUpTo (fun _ s2 => Inv s2) hs2 (fun k hk s2 hs2 => ?_)
+  by_cases hdone : s2.done = true
+  · rw [if_pos hdone]; exact Ok.pure hs2
+  rw [if_neg hdone]
+  simp only [Bool.not_eq_true] at hdone
+  obtain ⟨a, ha, _⟩ := hL.slot i s k hi hs hk
+  rw [ha, ok_bind]
+  obtain ⟨pr, hprv, _⟩ := hg.ad i s k hi hs hk a ha
+  rw [hprv, ok_bind]
+  refine Ok.ite (fun hsel => ?_) (fun hnsel => ?_)
+  · cases hnb : nb i k with
+    | none =>
+      have h0 := hz i s k hi hs hk trivial hnb a ha
+      rw [hprv] at h0
+      have hpr0 : pr = 0 := Except.ok.inj h0
+      have := hs2.2 hdone
+      rw [hpr0] at hsel
+      exfalso; linarith
+    | some j =>
+      refine Ok.bind (applyDiffusionC_ok hT hL s2.x hs2.1 hi hs hk hnb) (fun x' hx' => ?_)
+      exact Ok.pure ⟨hx', fun h => by cases h⟩
+  · refine Ok.pure ⟨hs2.1, fun _ => ?_⟩
+    have := not_lt.mp hnsel
+    exact this
+
 end funcs
 
 end Strengths
